@@ -229,7 +229,43 @@ def check_C11(chk):
     chk.assumptions += ['counts beyond 2^31 (big integers) are covered by C09']
 
 
-CHECKS = {'C11': check_C11, 'C10': check_C10, 'C01': check_C01, 'C02': check_C02, 'C03': check_C03}
+def order_cfg(triples, invs):
+    return 'SPECIFICATION Spec\nCONSTANT Triples = %s\n%sCHECK_DEADLOCK FALSE\n' % ('TRUE' if triples else 'FALSE', ''.join(f'INVARIANT {i}\n' for i in invs))
+
+
+def run_spec_only(chk, name, module, cfg, workers=12, timeout=2400):
+    """TLC on a configuration whose obligations are invariants of the specification itself."""
+    res = vlib.run_tlc(module, cfg, f'{chk.pid}-{name}', workers=workers, timeout=timeout)
+    chk.add_tlc(res)
+    for inv in res['invariant_violated']:
+        import subprocess
+        cex = subprocess.run(f"grep -A8 'is violated' {res['out']} | tr '\\n' ' ' | cut -c1-600", shell=True, capture_output=True, text=True).stdout
+        chk.violation(f'spec:{name}:{inv}', f'TLC: invariant {inv} of {module} ({name}) violated: {cex}', {'tlc_out': res['out']})
+    chk.extra.setdefault('spec_runs', {})[name] = {'tlc_states': res['distinct'], 'tlc_wall_s': round(res['wall'], 1)}
+    return res
+
+
+def check_C08(chk):
+    q = chk.tier == 'quick'
+    chk.rule = ('atoms = every number representation and boundary (machine/big integers of equal value, floats 0.0 -0.0 1.0 0.5 1.5 -1.0, decimal '
+                'literals 1.0 1e0 0.0 -0.0 1.50 100e-2, +-Infinity), strings (text, bytes, invalid UTF-8, multi-byte), arrays, objects incl. equal '
+                'objects with different insertion order and non-string keys. TLC checks on the specification, for ALL pairs and triples of atoms: '
+                'exactly one of < == >, antisymmetry, transitivity, unique stable sort, and coherence of an implementation-shaped hash model with '
+                'equality. For all pairs x 15 operations ([<,<=,==,!=,>=,>], sort, unique, group_by, min/max, has/.[k] on a 2-entry object, object ==, +, *, '
+                '.[k] = v, del, index/indices, array -, contains/inside, bsearch) and all triples x 4 sorting operations, plus 40-element arrays of '
+                'equal-but-distinguishable values, the expected result is replayed on the real code. non-trivial: all; distinct = (operation, values).')
+    run_spec_only(chk, 'axioms-pairs', 'MC_Order', order_cfg(False, ['Order', 'HashCoherent']))
+    run_spec_only(chk, 'axioms-triples', 'MC_Order', order_cfg(True, ['Trans', 'SortStable']))
+    run_suite(chk, 'pairs', 'MC_Vals', vals_cfg('order-pairs', 2, ('WellFormed', 'NoUnsup')))
+    run_suite(chk, 'triples', 'MC_Vals', vals_cfg('order-triples', 2 if q else 3, ('WellFormed', 'NoUnsup')))
+    run_suite(chk, 'long', 'MC_Vals', vals_cfg('order-long', 2, ('WellFormed', 'NoUnsup')))
+    chk.extra['exhaustive'] = True
+    chk.assumptions += ['NaN is excluded (as in the property); integers beyond 2^53 against floats are excluded (as in the property); big integers here are '
+                        'big-integer REPRESENTATIONS of small values, true big magnitudes are in C09',
+                        'floats are the exactly representable ones (small dyadic rationals)']
+
+
+CHECKS = {'C08': check_C08, 'C11': check_C11, 'C10': check_C10, 'C01': check_C01, 'C02': check_C02, 'C03': check_C03}
 
 
 def main():
